@@ -50,6 +50,9 @@ func c03Prop(c *sim.Case) {
 	w := sim.NewWorld(c, o)
 	defer w.Close()
 	genKey(c, "key", w)
+	if o.Discovery {
+		w.IdP.ChallengeMethods = [][]string{nil, {"S256"}, {"plain", "S256"}, {"S256", "plain"}}[sim.Pick(c, "pkce-methods", 4)]
+	}
 	shape := genShape(c, "shape", w)
 	w.IdP.Default = shape
 	if shape.NoAccess && o.AccessToken {
